@@ -36,6 +36,54 @@ def run(ctx):
                 hist[i] += ch == "1"
     n1, v1 = diff_games(ctx, "g_preds", games, "predicates (check, mate, stalemate, repeated, threefold, rule50, insufficient material) differ from the history spec",
                         impl, model, nontrivial=lambda x: x != "0000000", tally=tally)
+    # the same answers asked the way a search asks them: make / ask / unmake / make a SIBLING / ask on one Position object, where one of the
+    # siblings returns to an earlier position of the game and the other does not (a memo keyed by the length of the history would be wrong);
+    # plus random nested make / unmake / null-move scripts.  The model walks the representation (its key history), whose answers the theorem
+    # C07_repetition_and_fifty_move_answers_agree_with_the_history relates to the rules.
+    rev = lambda m: m[2:4] + m[:2]
+    roots = (sparse + fens)[: (120 if q else 2000)]
+    rcl, l0, el = run_lines(model, ["legal " + f for f in roots], shards=NPROC)
+    c1 = []
+    for f, l in zip(roots, l0):
+        ms = [m for m in (l or "0").split()[1:] if len(m) == 4]
+        ctx.rng.shuffle(ms)
+        for a in ms[:3]:
+            c1.append((f, a))
+    rcl, l1, el = run_lines(model, ["g_legal %s | %s" % (f, a) for f, a in c1], shards=NPROC)
+    c2 = []
+    for (f, a), r in zip(c1, l1):
+        ls = (r or "").split(" ; ")
+        if len(ls) < 2:
+            continue
+        ob = [m for m in ls[1].split()[1:] if len(m) == 4]
+        ctx.rng.shuffle(ob)
+        for b in ob[:2]:
+            c2.append((f, [a, b, rev(a)]))
+    rcl, l2, el = run_lines(model, ["g_legal %s | %s" % (f, " ".join(ms)) for f, ms in c2], shards=NPROC)
+    wgames = []
+    for (f, ms), r in zip(c2, l2):
+        ls = (r or "").split(" ; ")
+        if len(ls) < 4 or "BAD" in (r or ""):
+            continue
+        if ms[2] not in ls[2].split()[1:]:
+            continue                      # the reverse of the first move is not legal there
+        last = ls[3].split()[1:]
+        back = rev(ms[1])
+        sib = [m for m in last if m != back and len(m) == 4]
+        if back in last and sib:
+            y = ctx.rng.choice(sib)
+            z = ctx.rng.choice(sib)
+            wgames.append((f, ms + [back, "u", y, "u", back, "u", z, "u", y, "u", back, ms[0], "u", "u", z]))
+    wroots = [g_[0] for g_ in games if len(g_[1]) > 20][: (40 if q else 600)]
+    rcw, wscripts, ew = run_lines(model, ["walkgen %d %d %d %s" % (ctx.rng.randrange(1 << 30), 60 if q else 120, 8, f_) for f_ in wroots], shards=NPROC)
+    wgames += [(f_, (s_ or "").split()) for f_, s_ in zip(wroots, wscripts) if s_]
+    nw, vw = diff_games(ctx, "walk_preds", wgames, "predicates asked after a make / unmake / sibling-move script on one object differ from the model of the key history", impl, model)
+    v1 += vw
+    # ... and asked only after a move was MADE (never at the parent between two siblings), which is how the search asks
+    nw2, vw2 = diff_games(ctx, "walk_preds_do", wgames, "predicates asked after every made move of a make / unmake / sibling script (not after unmake) differ from the model of the key history", impl, model)
+    v1 += vw2
+    nw += nw2
+    ctx.notes["sibling_and_walk_script_observations"] = nw
     ctx.notes["positions_with_predicate_true"] = dict(zip(["in_check", "checkmate", "stalemate", "repeated", "threefold", "rule50", "insufficient_material"], hist))
     ctx.cov["rule"] = ("%d model-driven games (openings, sparse endings with shuffles -> repetitions / clock >= 100 / material run-downs, "
                        "forcing play -> mates and stalemates, explicit 2/3-fold scripts incl. rights lost in between); after every ply the seven "
